@@ -125,9 +125,11 @@ impl ParseData for FromMetaOptions {
                 }
             }
             Data::Enum(ref data) => {
+                // `word = false` opts a variant out; only variants that are the word count.
                 let word_variants: Vec<_> = data
                     .iter()
                     .filter_map(|variant| variant.word.as_ref())
+                    .filter(|word| ***word)
                     .collect();
 
                 if !word_variants.is_empty() {
